@@ -233,6 +233,9 @@ pub enum Server {
 pub struct HttpStats {
     pub performed: u32,
     pub completed_200_bodies: Vec<u32>,
+    /// Status-200 transfers that libcurl would report as successful although
+    /// the body was cut (no Content-Length, orderly close): (body id, bytes delivered).
+    pub cut_but_ok_200: Vec<(u32, u32)>,
     pub last_error_code: Option<u32>,
 }
 
